@@ -105,6 +105,7 @@ type incomingPacketState struct {
 type packetOutcome struct {
 	containsHandshake bool
 	retransmit        bool
+	retransmitsHello  bool
 	receivedACK       *protocol.ACK
 	responseAlert     *alert.Alert
 }
@@ -112,6 +113,7 @@ type packetOutcome struct {
 type datagramProcessingSummary struct {
 	containsHandshake bool
 	retransmit        bool
+	retransmitsHello  bool
 	receivedACKs      []protocol.ACK
 }
 
@@ -1399,6 +1401,7 @@ func (c *Conn) readAndBuffer(ctx context.Context) error {
 		Done:         make(chan struct{}),
 		HasHandshake: summary.containsHandshake,
 		IsRetransmit: summary.retransmit,
+		RepeatsHello: summary.retransmitsHello,
 		ACKs:         summary.receivedACKs,
 		RecordsToACK: c.takePendingACKs(),
 	}
@@ -1440,6 +1443,7 @@ func (c *Conn) readAndProcessDatagram(ctx context.Context) (datagramProcessingSu
 		}
 		summary.containsHandshake = summary.containsHandshake || outcome.containsHandshake
 		summary.retransmit = summary.retransmit || outcome.retransmit
+		summary.retransmitsHello = summary.retransmitsHello || outcome.retransmitsHello
 		if outcome.receivedACK != nil {
 			summary.receivedACKs = append(summary.receivedACKs, *outcome.receivedACK)
 		}
@@ -2148,7 +2152,14 @@ func (c *Conn) bufferHandshakeRecord(
 		c.handshakeCache.Push(out, epoch, header.MessageSequence, header.Type, !dtlsstate.CommonState(c.state).IsClient)
 	}
 
-	return packetOutcome{containsHandshake: true, retransmit: isRetransmit}, true, isLatestSeqNum
+	// A repeated ClientHello is what a lost cookie request looks like from here;
+	// any other old message is not.
+	repeatsHello := isRetransmit && len(buf) > header.Size() &&
+		handshake.Type(buf[header.Size()]) == handshake.TypeClientHello
+
+	return packetOutcome{
+		containsHandshake: true, retransmit: isRetransmit, retransmitsHello: repeatsHello,
+	}, true, isLatestSeqNum
 }
 
 func (c *Conn) handleChangeCipherSpecRecord(
